@@ -585,6 +585,7 @@ pub fn run(tier: Tier) -> i32 {
     let root = verif_root();
     let _ = std::fs::create_dir_all(root.join("replays").join(P));
     crate::alloc::set_replay_path(&root.join("replays").join(P).join("allocation-cap.json").display().to_string());
+    crate::alloc::start_watchdog(P, 60, root.join("replays").join(P));
     let mut stats = Stats::new();
     stats.sample_cap = 10;
     crate::run_regressions(&ctx, &mut stats, replay);
